@@ -111,12 +111,26 @@ def _run_items(func, items):
     return c
 
 
-def pmap(func, items, into, nshards=None, nproc=None):
+ITEM_CPU_BUDGET = float(os.environ.get('VERIF_ITEM_CPU_S', '0') or 0)
+
+
+def _cpu_seconds(pid):
+    try:
+        f = open('/proc/%d/stat' % pid).read().rsplit(')', 1)[1].split()
+        return (int(f[11]) + int(f[12])) / float(os.sysconf('SC_CLK_TCK'))
+    except Exception:
+        return 0.0
+
+
+def pmap(func, items, into, nshards=None, nproc=None, item_cpu_s=None):
     """Run func(collector, item) for every item, sharded over forked children, and merge the
-    collectors into `into`.  A child that dies from a signal (the implementation crashed) does
-    not hang the run: its shard is bisected until the single crashing item is isolated, which is
-    reported as a violation of class <pid>/impl-crash."""
-    import pickle, select, signal
+    collectors into `into`.
+    * A child that dies from a signal (the implementation crashed) does not hang the run: its shard is
+      bisected until the single crashing item is isolated, reported as a violation of class <pid>/impl-crash.
+    * A child that spends more than the per-item CPU budget on ONE item (CPU time of the child, so machine load
+      does not matter; the budget is far above what any item needs on the unchanged tree) is killed; the item
+      is reported as a violation of class <pid>/impl-hang and the rest of its shard is re-queued."""
+    import mmap, pickle, select, signal, struct
     items = list(items)
     if not items:
         return into
@@ -124,15 +138,15 @@ def pmap(func, items, into, nshards=None, nproc=None):
     nshards = nshards or max(nproc * 4, 1)
     n = max(1, min(nshards, len(items)))
     queue = [items[i::n] for i in range(n)]
-    if nproc <= 1 and os.environ.get('VERIF_INPROC') == '1':
-        for sh in queue:
-            into.merge(_run_items(func, sh))
-        return into
-    running = {}   # fd -> (pid, shard, buffer)
+    budget = item_cpu_s or ITEM_CPU_BUDGET or (600.0 if getattr(into, 'tier', 'quick') == 'quick' else 3600.0)
+    pidname = getattr(into, 'pid', 'X')
+    running = {}   # fd -> dict(pid, shard, buf, shm, last_index, cpu_at_item_start)
     while queue or running:
         while queue and len(running) < nproc:
             sh = queue.pop(0)
             r, w = os.pipe()
+            shm = mmap.mmap(-1, 8)
+            shm.write(struct.pack('q', -1)); shm.seek(0)
             pid = os.fork()
             if pid == 0:
                 code = 0
@@ -140,7 +154,14 @@ def pmap(func, items, into, nshards=None, nproc=None):
                     os.close(r)
                     dn = os.open(os.devnull, os.O_WRONLY)   # the library prints from inside (e.g. 'Initializing ODE Rule')
                     os.dup2(dn, 1)
-                    c = _run_items(func, sh)
+                    c = Collector()
+                    for k, it in enumerate(sh):
+                        shm.seek(0); shm.write(struct.pack('q', k))
+                        try:
+                            func(c, it)
+                        except BaseException as e:
+                            c.harness_error('worker raised on item %s: %r\n%s' % (str(it)[:300], e, traceback.format_exc()[-1500:]))
+                            break
                     data = pickle.dumps(c, protocol=pickle.HIGHEST_PROTOCOL)
                     with os.fdopen(w, 'wb') as f:
                         f.write(data)
@@ -150,18 +171,40 @@ def pmap(func, items, into, nshards=None, nproc=None):
                 finally:
                     os._exit(code)
             os.close(w)
-            running[r] = (pid, sh, [])
-        ready, _, _ = select.select(list(running), [], [], 5.0)
+            running[r] = dict(pid=pid, shard=sh, buf=[], shm=shm, last=-1, cpu0=0.0)
+        ready, _, _ = select.select(list(running), [], [], 2.0)
+        # watchdog: CPU time spent on the current item
+        for fd in list(running):
+            st = running[fd]
+            st['shm'].seek(0)
+            k = struct.unpack('q', st['shm'].read(8))[0]
+            cpu = _cpu_seconds(st['pid'])
+            if k != st['last']:
+                st['last'], st['cpu0'] = k, cpu
+            elif k >= 0 and cpu - st['cpu0'] > budget and fd not in ready:
+                os.kill(st['pid'], signal.SIGKILL)
+                os.waitpid(st['pid'], 0)
+                os.close(fd)
+                del running[fd]
+                into.violation('%s/impl-hang' % pidname, 'the implementation did not finish this case within %.0f s of CPU time '
+                               '(cases of this check need seconds)' % budget, {'hang_item': jsonable(st['shard'][k])})
+                into.count('evaluations', 1)
+                rest = st['shard'][:k] + st['shard'][k + 1:]
+                if rest:
+                    queue.insert(0, rest)      # results of the finished items were lost with the child: redo them
         for fd in ready:
+            if fd not in running:
+                continue
             chunk = os.read(fd, 1 << 20)
-            pid, sh, buf = running[fd]
+            st = running[fd]
             if chunk:
-                buf.append(chunk)
+                st['buf'].append(chunk)
                 continue
             os.close(fd)
             del running[fd]
-            _, status = os.waitpid(pid, 0)
-            data = b''.join(buf)
+            _, status = os.waitpid(st['pid'], 0)
+            data = b''.join(st['buf'])
+            sh = st['shard']
             if os.WIFSIGNALED(status) or not data:
                 sig = os.WTERMSIG(status) if os.WIFSIGNALED(status) else -1
                 if len(sh) > 1:
@@ -169,7 +212,6 @@ def pmap(func, items, into, nshards=None, nproc=None):
                     queue.insert(0, sh[h:])
                     queue.insert(0, sh[:h])
                 else:
-                    pidname = getattr(into, 'pid', 'X')
                     if sig in (signal.SIGSEGV, signal.SIGBUS, signal.SIGABRT, signal.SIGFPE, signal.SIGILL):
                         into.violation('%s/impl-crash/signal%d' % (pidname, sig),
                                        'the implementation crashed the process (signal %d) on this case' % sig,
